@@ -70,7 +70,7 @@ def ctype(ty, int_result):
 
 # replacement candidates (the first ones change the C type, some deliberately do not)
 ARG_REPL = {
-    "u64": ["u32", "i64", "&u64"],
+    "u64": ["u32", "i64", "&u64", "usize"],
     "u32": ["u64", "u8"],
     "&[u8]": ["&[u16]", "&mut [u8]", "&str", "u64"],
     "&str": ["&[u8]", "&[u16]"],
@@ -86,7 +86,7 @@ ARG_REPL = {
 }
 RET_REPL = {
     None: ["u64"],
-    "u64": [None, "u32", "i64"],
+    "u64": [None, "u32", "i64", "usize"],
     "u32": [None, "u64"],
     "&[u8]": ["&[u16]", "&str", "u64"],
     "Option<u64>": ["Option<u32>", "u64"],
@@ -114,13 +114,17 @@ RECVS = ["&self", "&mut self", "self"]
 
 
 class Meth:
-    def __init__(self, name, recv, args=(), ret=None, custom=False):
+    def __init__(self, name, recv, args=(), ret=None, custom=False, skip=False):
         self.name, self.recv, self.args, self.ret = name, recv, [list(a) for a in args], ret
+        # skip: a Rust-side helper with a default body that gets no vtable entry (#[skip_func])
+        self.skip = skip
         # custom: the C side of the method is hand-written with #[custom_impl] (same C argument / return types as the Rust
         # signature, default bodies); every edit of the signature is an edit of the hand-written C signature
         self.custom = custom
 
     def render(self):
+        if self.skip:
+            return "#[skip_func]\n    fn %s(&self) -> u32 { 0 }" % self.name
         if self.custom:
             cargs = "".join(" %s: %s," % (n, t) for n, t in self.args)
             sig = "fn %s(%s%s)%s;" % (self.name, self.recv, "".join(", %s: %s" % (n, t) for n, t in self.args), "" if self.ret is None else " -> " + self.ret)
@@ -274,6 +278,11 @@ def trait_edits(d, tname, prefix="", kprefix=""):
             return  # ill-typed combination (reference returned from a consuming method)
         out.append((prefix + name, kprefix + kind, nd, expect, note))
 
+    # a Rust-side helper without a vtable entry: the C-visible interface is the same, the verdict must stay Valid
+    emit("add_skip_func_last", "add_helper", lambda t: t.methods.append(Meth("zz_helper", "&self", skip=True)), VALID,
+         "a #[skip_func] method with a default body has no vtable entry: identical C-visible interface")
+    emit("add_skip_func_first", "add_helper", lambda t: t.methods.insert(0, Meth("aa_helper", "&self", skip=True)), VALID,
+         "a #[skip_func] method with a default body has no vtable entry: identical C-visible interface")
     emit("add_last", "add", lambda t: t.methods.append(Meth("zz_added", "&self", [], "u32")))
     emit("add_first", "add", lambda t: t.methods.insert(0, Meth("aa_added", "&self", [], "u32")))
     for i, m in enumerate(base_t.methods):
